@@ -273,7 +273,23 @@ func normScan(v interface{}) interface{} {
 // RunBranch executes one branch the way a correct caller would: an explicit transaction is rolled
 // back on the first statement error.
 func RunBranch(ctx context.Context, db *sql.DB, mode, via string, prepared bool, stmts []StmtText) BranchResult {
-	var out BranchResult
+	return RunBranchOpt(ctx, db, BranchOpts{Mode: mode, Via: via, Prepared: prepared}, stmts)
+}
+
+// BranchOpts are the ways a caller may run a branch.
+type BranchOpts struct {
+	Mode, Via string
+	Prepared  bool
+	// KeepGoing: inside an explicit transaction a failed statement is ignored (MySQL rolls back the
+	// statement only) and the transaction is committed with what the other statements did
+	KeepGoing bool
+	// After runs one more autocommit statement on the same handle (same pinned connection) after the branch
+	After *StmtText
+}
+
+// RunBranchOpt is RunBranch with options; the result of After is appended to Stmts.
+func RunBranchOpt(ctx context.Context, db *sql.DB, o BranchOpts, stmts []StmtText) (out BranchResult) {
+	mode, via, prepared := o.Mode, o.Via, o.Prepared
 	var x execer = db
 	if via == "conn" {
 		c, err := db.Conn(ctx)
@@ -296,6 +312,12 @@ func RunBranch(ctx context.Context, db *sql.DB, mode, via string, prepared bool,
 		}()
 		x = c
 	}
+	// (registered after the deferred Close above, so it runs before it)
+	defer func() {
+		if o.After != nil && !strings.HasPrefix(out.CommitErr, "PANIC") {
+			out.Stmts = append(out.Stmts, runStmt(ctx, x, o.After.SQL, o.After.Args, false, o.After.Query))
+		}
+	}()
 	if mode != "tx" && mode != "mixed" {
 		for _, s := range stmts {
 			out.Stmts = append(out.Stmts, runStmt(ctx, x, s.SQL, s.Args, prepared, s.Query))
@@ -321,7 +343,7 @@ func RunBranch(ctx context.Context, db *sql.DB, mode, via string, prepared bool,
 	for _, s := range stmts {
 		r := runStmt(ctx, tx, s.SQL, s.Args, prepared, s.Query)
 		out.Stmts = append(out.Stmts, r)
-		if r.Err != "" {
+		if r.Err != "" && !o.KeepGoing {
 			if err := safeEnd(tx, false); err != nil && strings.HasPrefix(err.Error(), "PANIC") {
 				out.CommitErr = err.Error()
 			}
